@@ -31,7 +31,7 @@ def base_opt(prop):
 
 
 C01_CFGS = [{}, {'options': {'output.format': False}}, {'options': {'output.selfClosingStyle': 'xhtml'}}, {'options': {'output.selfClosingStyle': 'xml', 'output.format': False}},
-            {'syntax': 'xml'}, {'context': {'name': 'ul'}}, {'context': {'name': 'em'}}, {'options': {'output.inlineBreak': 0, 'output.indent': '  ', 'output.newline': '\r\n'}}]
+            {'syntax': 'xml'}, {'context': {'name': 'ul'}}, {'context': {'name': 'em'}}, {'context': {'name': '\u017fpan'}}, {'context': {'name': '\u017felect'}}, {'context': {'name': '\ufb06rong'}}, {'options': {'output.inlineBreak': 0, 'output.indent': '  ', 'output.newline': '\r\n'}}]
 C02_CFGS = [{}, {}, {'syntax': 'jsx'}, {'syntax': 'svelte'}, {'maxRepeat': 1}, {'maxRepeat': 2}, {'maxRepeat': 3}, {'maxRepeat': 5}, {'maxRepeat': 9}, {'options': {'output.format': False}}]
 C03_CFGS = [{}, {'options': {'output.attributeQuotes': 'single'}}, {'options': {'output.reverseAttributes': True}}, {'options': {'output.compactBoolean': True}},
             {'options': {'output.attributeCase': 'upper'}}, {'syntax': 'jsx'}, {'syntax': 'vue'}, {'syntax': 'xml'}, {'options': {'output.selfClosingStyle': 'xhtml', 'output.compactBoolean': True, 'output.reverseAttributes': True}},
@@ -903,6 +903,11 @@ def cases_C14(tier, rnd):
     for k, alt in [('galias', 'section>h1+p'), ('galias>em', 'section>h1+p>em'), ('halias>li', 'nav>ul>li'), ('both', 'b'), ('div>galias+halias', 'div>(section>h1+p)+(nav>ul)')]:
         out.append({'s': k, 'alt': alt, 'c': {}, 'gc': gc_, 'g': 'global-aliases'})
         out.append({'s': k, 'alt': alt, 'c': {'snippets': {'mine': 'u'}}, 'gc': gc_, 'g': 'global-aliases'})
+    for k, alt in [('cells*3', '(td*2)*3'), ('tr>cells*2', 'tr>(td*2)*2'), ('cells', 'td*2'), ('rows*2', '(tr*2)*2')]:
+        out.append({'s': k, 'alt': alt, 'c': {'snippets': {'cells': 'td*2', 'rows': 'tr*2'}, 'options': {'output.format': False}}, 'g': 'alias-repeaters'})
+    for sy_ in ('jsx', 'svelte', 'html'):
+        for k, alt in [('Btn', 'button.btn'), ('Card>b', 'div.card>p>b'), ('ul>Btn*2', 'ul>(button.btn)*2')]:
+            out.append({'s': k, 'alt': alt, 'c': {'syntax': sy_, 'snippets': {'Btn': 'button.btn', 'Card': 'div.card>p'}}, 'g': 'capitalised-alias'})
     chain = dict(('s%d' % i, 's%d.k%d' % (i + 1, i)) for i in range(12)); chain['s12'] = 'p.end'
     out.append({'s': 's0', 'alt': 'p.end' + ''.join('.k%d' % i for i in range(11, -1, -1)), 'c': {'snippets': chain}, 'g': 'long-chain'})
     out.append({'s': 'ul>s3*2', 'alt': 'ul>(p.end' + ''.join('.k%d' % i for i in range(11, 2, -1)) + ')*2', 'c': {'snippets': chain}, 'g': 'long-chain'})
